@@ -247,7 +247,7 @@ var hostTables = &HTables{
 	BenignGlobals: map[string]bool{
 		"currentForkVersion": true, "contexts": true, "lastQueryIndex": true, "multicall_compiled": true, "maxContext": true,
 		"logInternalOperations": true, "ctrLgr": true, "mulAergo": true, "mulGaer": true, "zeroBig": true,
-		"nextOpId": true, // internal_operations.go: id counter of the in-memory operation log
+		"nextOpId":  true, // internal_operations.go: id counter of the in-memory operation log
 		"queryConn": true, // statesql.go: the *SQLiteConn of the connection the query driver opened last (ConnectHook)
 	},
 	RestoreFns: map[string]bool{
@@ -256,17 +256,17 @@ var hostTables = &HTables{
 	// C functions that run Lua code (vm.c): lua_pcall inside
 	ReenterC:     map[string]bool{"vm_pcall": true, "vm_loadcall": true},
 	QueryEntries: map[string]bool{"Query": true, "CheckFeeDelegation": true},
-	CtxBuilders: map[string]bool{"NewVmContextQuery": true, "NewVmContext": true},
+	CtxBuilders:  map[string]bool{"NewVmContextQuery": true, "NewVmContext": true},
 	ErrCtors: map[string]bool{"C.CString": true, "errors.New": true, "fmt.Errorf": true, "newVmError": true, "newVmSystemError": true,
 		"newDbSystemError": true},
 	SQLExecMethods: map[string]bool{"sql.Conn.ExecContext": true, "sql.Tx.Exec": true, "sql.Tx.ExecContext": true, "sql.DB.Exec": true,
 		"sql.DB.ExecContext": true},
 	SQLPrefixes: [][2]string{
-		{"pragma branch=", "txctl"},        // litetree: selects the commit this connection reads from (snapshotView); no data changes
-		{"pragma branch_truncate", "mut"},  // litetree: drops commits
+		{"pragma branch=", "txctl"},       // litetree: selects the commit this connection reads from (snapshotView); no data changes
+		{"pragma branch_truncate", "mut"}, // litetree: drops commits
 		{"release savepoint", "txctl"},
 		{"rollback to savepoint", "restore"},
-		{"savepoint", "mutQ"},
+		{"savepoint", "txctl"}, // a savepoint by itself changes no data
 		{"begin", "txctl"},
 		{"create table", "mutQ"},
 	},
@@ -283,6 +283,8 @@ var hostTables = &HTables{
 		"InternalCall.Operations": true, "InternalCall.Contract": true, "InternalCall.Function": true, "InternalCall.Args": true,
 		"InternalCall.Amount": true, "InternalOperation.Result": true, "InternalOperation.Reverted": true, "InternalOperation.Call": true,
 	},
+	ExtResults: map[string][]string{"sql.Open": {"*sql.DB", "error"}, "sql.DB.Conn": {"*sql.Conn", "error"},
+		"sql.Conn.BeginTx": {"*sql.Tx", "error"}},
 	Assume: []HAssume{
 		{Fn: "luaSendAmount",
 			AnyOf: []string{"amountBig.Cmp(zeroBig) > 0", "amountBig.Cmp(zeroBig) == 0"},
